@@ -473,6 +473,36 @@ func dpCmd(args []string) {
 			cid, writer := t.next(), t.next()
 			nthreads, total := t.int(), t.int()
 			s.addRowCase(cid, writer, nthreads, total)
+		case "HREUSE":
+			// one query object executed, modified in place into a second query, executed again
+			qid := t.next()
+			t.next()
+			t.next()
+			t.next()
+			e1 := t.expr()
+			if t.next() != "THEN" {
+				fatal("expected THEN")
+			}
+			e2 := t.expr()
+			if t.next() != "GB" {
+				fatal("expected GB")
+			}
+			m := t.int()
+			var gb []string
+			for j := 0; j < m; j++ {
+				gb = append(gb, t.str())
+			}
+			h := s.hist
+			if h == nil || h.ix == nil {
+				pr("HQ %s.a NOINDEX\nHQ %s.b NOINDEX\n", qid, qid)
+				continue
+			}
+			q := &updog.Query{Expr: e1, GroupBy: gb}
+			pr("HQ %s.a %s\n", qid, execQuery(h.ix, q))
+			if !morph(q.Expr, e2) {
+				q.Expr = e2
+			}
+			pr("HQ %s.b %s\n", qid, execQuery(h.ix, q))
 		case "QVAL":
 			// one *updog.Query value executed on several indexes in sequence (C08)
 			qid := t.next()
